@@ -435,7 +435,12 @@ def run(chk, repo, tier):
             continue
         seen_edges |= is_edges
         seen_nodes |= is_nodes
-        filt = bool(n.ifs) if isinstance(n, ast.comprehension) else any(
+        def only_drops_output(t):
+            # `not isinstance(x, Output)`: the definition of "all compartments" (what _comps() does)
+            return isinstance(t, ast.UnaryOp) and isinstance(t.op, ast.Not) and isinstance(t.operand, ast.Call) \
+                and dotted(t.operand.func) == 'isinstance' and len(t.operand.args) == 2 \
+                and unparse(t.operand.args[1]) == 'Output'
+        filt = any(not only_drops_output(t) for t in n.ifs) if isinstance(n, ast.comprehension) else any(
             isinstance(x, (ast.If, ast.Continue, ast.Break)) for s in n.body for x in ast.walk(s))
         chk.instance(O6, f'subs: loop over {txt} filtered={filt}')
         if filt:
